@@ -58,7 +58,12 @@ pub fn check(r: &RunResult, rep: &mut Report) {
 	let mut boot_decided: Option<bool> = None;
 	for e in w.trace.iter() {
 		match &e.ev {
-			Ev::FileNote { path, sha, len, when } => {
+			Ev::FileNote {
+				path,
+				sha,
+				len,
+				when,
+			} => {
 				if when == "after_truncate" {
 					pending_trunc = Some((sha.clone(), *len));
 					boot_decided = None;
@@ -70,11 +75,29 @@ pub fn check(r: &RunResult, rep: &mut Report) {
 						if tlen < full {
 							match boot_decided {
 								Some(false) => {}
-								Some(true) => rep.add(Violation::new("C11", "started_with_truncated_account_file", "", "boot", format!("account file cut to {} of {} bytes and the daemon started", tlen, full))),
+								Some(true) => rep.add(Violation::new(
+									"C11",
+									"started_with_truncated_account_file",
+									"",
+									"boot",
+									format!(
+										"account file cut to {} of {} bytes and the daemon started",
+										tlen, full
+									),
+								)),
 								None => {}
 							}
 							if sha != &tsha {
-								rep.add(Violation::new("C11", "truncated_account_file_replaced", "", "boot", format!("file cut to {} bytes was rewritten ({} bytes now)", tlen, len)));
+								rep.add(Violation::new(
+									"C11",
+									"truncated_account_file_replaced",
+									"",
+									"boot",
+									format!(
+										"file cut to {} bytes was rewritten ({} bytes now)",
+										tlen, len
+									),
+								));
 							}
 						}
 					} else {
@@ -91,7 +114,17 @@ pub fn check(r: &RunResult, rep: &mut Report) {
 	}
 
 	// ---- (3) everything needed survives a restart exactly ----
-	let snaps: Vec<(u64, String, Option<AccountSnap>)> = w.account_snaps.iter().map(|(s, t, v)| (*s, t.clone(), v.iter().flatten().find(|a| a.name == acc_name).cloned())).collect();
+	let snaps: Vec<(u64, String, Option<AccountSnap>)> = w
+		.account_snaps
+		.iter()
+		.map(|(s, t, v)| {
+			(
+				*s,
+				t.clone(),
+				v.iter().flatten().find(|a| a.name == acc_name).cloned(),
+			)
+		})
+		.collect();
 	for i in 0..snaps.len() {
 		if !snaps[i].1.starts_with("stop:") {
 			continue;
@@ -101,11 +134,20 @@ pub fn check(r: &RunResult, rep: &mut Report) {
 			None => continue,
 		};
 		// quiescent stop only: no attempt open at that moment
-		let open = atts.iter().any(|a| a.begin.seq < snaps[i].0 && a.end.map(|e| e.seq > snaps[i].0).unwrap_or(true) && a.begin.seq > last_boot_before(w, snaps[i].0));
+		let open = atts.iter().any(|a| {
+			a.begin.seq < snaps[i].0
+				&& a.end.map(|e| e.seq > snaps[i].0).unwrap_or(true)
+				&& a.begin.seq > last_boot_before(w, snaps[i].0)
+		});
 		if open || snaps[i].1 == "stop:crash" {
 			continue;
 		}
-		if let Some(post) = snaps.iter().skip(i + 1).find(|s| s.1 == "boot").and_then(|s| s.2.clone()) {
+		if let Some(post) = snaps
+			.iter()
+			.skip(i + 1)
+			.find(|s| s.1 == "boot")
+			.and_then(|s| s.2.clone())
+		{
 			rep.nontrivial = true;
 			rep.probe("c11.restarts_compared", 1);
 			let mut exp_past = pre.past_keys.clone();
@@ -114,10 +156,28 @@ pub fn check(r: &RunResult, rep: &mut Report) {
 				exp_past.push(pre.current_key.clone());
 			}
 			if post.past_keys != exp_past {
-				rep.add(Violation::new("C11", "superseded_keys_not_durable", "", "restart", format!("before {} past keys, after {}", pre.past_keys.len(), post.past_keys.len())));
+				rep.add(Violation::new(
+					"C11",
+					"superseded_keys_not_durable",
+					"",
+					"restart",
+					format!(
+						"before {} past keys, after {}",
+						pre.past_keys.len(),
+						post.past_keys.len()
+					),
+				));
 			}
-			if !key_rolled && (post.current_alg != pre.current_alg || post.current_type != pre.current_type) {
-				rep.add(Violation::new("C11", "current_key_not_durable", "", "restart", String::new()));
+			if !key_rolled
+				&& (post.current_alg != pre.current_alg || post.current_type != pre.current_type)
+			{
+				rep.add(Violation::new(
+					"C11",
+					"current_key_not_durable",
+					"",
+					"restart",
+					String::new(),
+				));
 			}
 			let mut pre_eps = pre.endpoints.clone();
 			let post_eps = post.endpoints.clone();
@@ -125,7 +185,13 @@ pub fn check(r: &RunResult, rep: &mut Report) {
 			pre_eps.retain(|k, _| post_eps.contains_key(k));
 			for (k, v) in pre_eps.iter() {
 				if post_eps.get(k) != Some(v) {
-					rep.add(Violation::new("C11", "endpoint_state_not_durable", "", "restart", format!("endpoint {}: {:?} became {:?}", k, v, post_eps.get(k))));
+					rep.add(Violation::new(
+						"C11",
+						"endpoint_state_not_durable",
+						"",
+						"restart",
+						format!("endpoint {}: {:?} became {:?}", k, v, post_eps.get(k)),
+					));
 				}
 			}
 		}
@@ -133,18 +199,46 @@ pub fn check(r: &RunResult, rep: &mut Report) {
 
 	// ---- (1) an account is created only when no URL is stored, the CA reported it unknown, or the binding changed ----
 	for ca in w.cas.iter() {
-		let ep_name = cfg.endpoints.iter().find(|e| e.ca == ca.idx).map(|e| e.name.clone()).unwrap_or_default();
+		let ep_name = cfg
+			.endpoints
+			.iter()
+			.find(|e| e.ca == ca.idx)
+			.map(|e| e.name.clone())
+			.unwrap_or_default();
 		let mut last_ok: Option<(u64, Option<String>)> = None; // (tx, eab kid) of the last successful newAccount
 		for na in ca.new_accounts.iter() {
 			rep.nontrivial = true;
 			rep.probe("c11.new_account_requests", 1);
 			let seq = sendseq.get(&na.tx).copied().unwrap_or(0);
 			// what the daemon had stored when it sent this: newest snapshot before the request
-			let stored_url = snaps.iter().rev().find(|s| s.0 <= seq).and_then(|s| s.2.as_ref()).and_then(|a| a.endpoints.get(&ep_name)).map(|e| e.0.clone()).unwrap_or_default();
-			let no_url = stored_url.is_empty() && last_ok.as_ref().map(|l| sendseq.get(&l.0).copied().unwrap_or(0) < snaps.iter().rev().find(|s| s.0 <= seq).map(|s| s.0).unwrap_or(0)).unwrap_or(true);
+			let stored_url = snaps
+				.iter()
+				.rev()
+				.find(|s| s.0 <= seq)
+				.and_then(|s| s.2.as_ref())
+				.and_then(|a| a.endpoints.get(&ep_name))
+				.map(|e| e.0.clone())
+				.unwrap_or_default();
+			let no_url = stored_url.is_empty()
+				&& last_ok
+					.as_ref()
+					.map(|l| {
+						sendseq.get(&l.0).copied().unwrap_or(0)
+							< snaps
+								.iter()
+								.rev()
+								.find(|s| s.0 <= seq)
+								.map(|s| s.0)
+								.unwrap_or(0)
+					})
+					.unwrap_or(true);
 			let first = last_ok.is_none();
-			let adne = ca.does_not_exist.iter().any(|(tx, _)| *tx < na.tx && last_ok.as_ref().map(|l| *tx > l.0).unwrap_or(true));
-			let binding_changed = na.eab_kid.is_some() && last_ok.as_ref().map(|l| l.1 != na.eab_kid).unwrap_or(false);
+			let adne = ca
+				.does_not_exist
+				.iter()
+				.any(|(tx, _)| *tx < na.tx && last_ok.as_ref().map(|l| *tx > l.0).unwrap_or(true));
+			let binding_changed = na.eab_kid.is_some()
+				&& last_ok.as_ref().map(|l| l.1 != na.eab_kid).unwrap_or(false);
 			let reason = if first || no_url {
 				"no_url_stored"
 			} else if adne {
@@ -159,7 +253,12 @@ pub fn check(r: &RunResult, rep: &mut Report) {
 			} else {
 				rep.probe(&format!("c11.new_account.{}", reason), 1);
 			}
-			let ok = ca.posts.iter().find(|p| p.tx == na.tx).map(|p| p.reply_status < 300 && !p.lost).unwrap_or(false);
+			let ok = ca
+				.posts
+				.iter()
+				.find(|p| p.tx == na.tx)
+				.map(|p| p.reply_status < 300 && !p.lost)
+				.unwrap_or(false);
 			if ok {
 				last_ok = Some((na.tx, na.eab_kid.clone()));
 			}
@@ -184,16 +283,45 @@ pub fn check(r: &RunResult, rep: &mut Report) {
 				Some(c) => c,
 				None => continue,
 			};
-			let want_contacts: Vec<String> = want_contacts.iter().map(|c| format!("mailto:{}", c)).collect();
+			let want_contacts: Vec<String> = want_contacts
+				.iter()
+				.map(|c| format!("mailto:{}", c))
+				.collect();
 			// account requests of this attempt on this CA
-			let in_att = |tx: u64| sendseq.get(&tx).map(|s| *s > a.begin.seq && *s < end.seq).unwrap_or(false);
-			let contact_updates = ca.accounts.iter().map(|ac| ac.contact_updates.iter().filter(|(tx, _)| in_att(*tx)).count()).sum::<usize>();
+			let in_att = |tx: u64| {
+				sendseq
+					.get(&tx)
+					.map(|s| *s > a.begin.seq && *s < end.seq)
+					.unwrap_or(false)
+			};
+			let contact_updates = ca
+				.accounts
+				.iter()
+				.map(|ac| {
+					ac.contact_updates
+						.iter()
+						.filter(|(tx, _)| in_att(*tx))
+						.count()
+				})
+				.sum::<usize>();
 			let key_changes: Vec<_> = ca.key_changes.iter().filter(|kc| in_att(kc.tx)).collect();
 			if contact_updates > 1 {
-				rep.add(Violation::new("C11", "more_than_one_update_per_item", "contacts", "account", format!("{} contact updates in one attempt", contact_updates)));
+				rep.add(Violation::new(
+					"C11",
+					"more_than_one_update_per_item",
+					"contacts",
+					"account",
+					format!("{} contact updates in one attempt", contact_updates),
+				));
 			}
 			if key_changes.iter().filter(|k| k.ok).count() > 1 {
-				rep.add(Violation::new("C11", "more_than_one_update_per_item", "key", "keyChange", String::new()));
+				rep.add(Violation::new(
+					"C11",
+					"more_than_one_update_per_item",
+					"key",
+					"keyChange",
+					String::new(),
+				));
 			}
 			if contact_updates > 0 {
 				rep.probe("c11.contact_updates", 1);
@@ -206,26 +334,55 @@ pub fn check(r: &RunResult, rep: &mut Report) {
 			}
 			rep.nontrivial = true;
 			// the daemon's key at the end of the attempt
-			let snap = w.account_snaps.iter().find(|(s, t, _)| *s == end.seq && t.starts_with("attempt_end:")).and_then(|(_, _, v)| v.iter().flatten().find(|x| x.name == acc_name).cloned());
+			let snap = w
+				.account_snaps
+				.iter()
+				.find(|(s, t, _)| *s == end.seq && t.starts_with("attempt_end:"))
+				.and_then(|(_, _, v)| v.iter().flatten().find(|x| x.name == acc_name).cloned());
 			let snap = match snap {
 				Some(s) => s,
 				None => continue,
 			};
-			let url = snap.endpoints.get(&ep.name).map(|e| e.0.clone()).unwrap_or_default();
+			let url = snap
+				.endpoints
+				.get(&ep.name)
+				.map(|e| e.0.clone())
+				.unwrap_or_default();
 			let rec = ca.accounts.iter().find(|ac| ca.acct_url(ac.id) == url);
 			let rec = match rec {
 				Some(r) => r,
 				None => {
-					rep.add(Violation::new("C11", "stored_account_url_unknown_to_ca", "", "", url));
+					rep.add(Violation::new(
+						"C11",
+						"stored_account_url_unknown_to_ca",
+						"",
+						"",
+						url,
+					));
 					continue;
 				}
 			};
 			rep.probe("c11.renewals_judged", 1);
 			// the CA's record AS OF the end of this attempt
 			let before = |tx: u64| sendseq.get(&tx).map(|s| *s < end.seq).unwrap_or(false);
-			let ca_thumb = rec.key_history.iter().filter(|(tx, _)| before(*tx)).last().map(|x| x.1.clone()).unwrap_or_default();
-			let ca_contacts = rec.contact_updates.iter().filter(|(tx, _)| before(*tx)).last().map(|x| x.1.clone()).unwrap_or_else(|| rec.created_contacts.clone());
-			let ca_forgotten = rec.forgotten_at.map(|s| s < end.seq as u128).unwrap_or(false);
+			let ca_thumb = rec
+				.key_history
+				.iter()
+				.filter(|(tx, _)| before(*tx))
+				.last()
+				.map(|x| x.1.clone())
+				.unwrap_or_default();
+			let ca_contacts = rec
+				.contact_updates
+				.iter()
+				.filter(|(tx, _)| before(*tx))
+				.last()
+				.map(|x| x.1.clone())
+				.unwrap_or_else(|| rec.created_contacts.clone());
+			let ca_forgotten = rec
+				.forgotten_at
+				.map(|s| s < end.seq as u128)
+				.unwrap_or(false);
 			let mut diffs = vec![];
 			if ca_thumb != snap.thumb {
 				diffs.push("key");
@@ -234,29 +391,100 @@ pub fn check(r: &RunResult, rep: &mut Report) {
 				// did this attempt "create" an account the CA already had (200, body = the account as
 				// it existed before the request)?
 				// ... in this attempt or in an earlier one since the CA last took contacts for this account
-				let last_contact_tx = rec.contact_updates.iter().map(|x| x.0).filter(|tx| before(*tx)).max().unwrap_or(rec.created_tx);
-				let existing = ca.new_accounts.iter().any(|na| before(na.tx) && na.tx > last_contact_tx && !na.created && na.account == Some(rec.id));
-				diffs.push(if existing { "contacts_after_newaccount_returned_existing_account" } else { "contacts" });
+				let last_contact_tx = rec
+					.contact_updates
+					.iter()
+					.map(|x| x.0)
+					.filter(|tx| before(*tx))
+					.max()
+					.unwrap_or(rec.created_tx);
+				let existing = ca.new_accounts.iter().any(|na| {
+					before(na.tx)
+						&& na.tx > last_contact_tx
+						&& !na.created && na.account == Some(rec.id)
+				});
+				diffs.push(if existing {
+					"contacts_after_newaccount_returned_existing_account"
+				} else {
+					"contacts"
+				});
 			}
 			if ca_forgotten {
 				diffs.push("account_forgotten_by_ca");
 			}
 			if !diffs.is_empty() {
-				rep.add(Violation::new("C11", "ca_record_not_in_line_after_renewal", &diffs.join("+"), &c.endpoint, format!("CA holds key {} contacts {:?}; daemon key {} configured contacts {:?}", &ca_thumb[..8.min(ca_thumb.len())], ca_contacts, &snap.thumb[..8.min(snap.thumb.len())], want_contacts)));
+				rep.add(Violation::new(
+					"C11",
+					"ca_record_not_in_line_after_renewal",
+					&diffs.join("+"),
+					&c.endpoint,
+					format!(
+						"CA holds key {} contacts {:?}; daemon key {} configured contacts {:?}",
+						&ca_thumb[..8.min(ca_thumb.len())],
+						ca_contacts,
+						&snap.thumb[..8.min(snap.thumb.len())],
+						want_contacts
+					),
+				));
 			}
 			let _ = (ci, k);
 		}
 		// convergence: the final renewal of each endpoint (three attempts allowed) must succeed
-		if !net_faults && r.outcomes.iter().all(|o| !o.contains("CrashPoint") || true) {
-			let last_run_only_this = matches!(w.plan.ops.iter().rev().find(|o| matches!(o, Op::Run { only, .. } if only == &vec![ci])), Some(_));
+		// With network faults the same is demanded once they have stopped (two of the final attempts
+		// began after the last injected fault), except after the one fault that legitimately leaves
+		// the two sides apart for good: a key roll-over processed by the CA whose reply was lost.
+		let last_net_fault = w
+			.trace
+			.iter()
+			.filter(|e| matches!(&e.ev, Ev::NetDeliver { fault: Some(_), .. }))
+			.map(|e| e.seq)
+			.last()
+			.unwrap_or(0);
+		let rollover_reply_lost = w.trace.iter().any(|e| {
+			matches!(&e.ev, Ev::NetDeliver { class, fault: Some(f), .. } if class == "keyChange" && f.contains("reset_after"))
+		});
+		if rollover_reply_lost {
+			rep.probe("c11.convergence_not_judged.rollover_reply_lost", 1);
+		}
+		if !net_faults || !rollover_reply_lost {
+			let last_run_only_this = matches!(
+				w.plan
+					.ops
+					.iter()
+					.rev()
+					.find(|o| matches!(o, Op::Run { only, .. } if only == &vec![ci])),
+				Some(_)
+			);
 			if last_run_only_this {
 				let last_boot = atts.iter().map(|a| a.boot).max().unwrap_or(0);
 				let final_boot_of_cert = mine.iter().map(|a| a.boot).max().unwrap_or(0);
 				let _ = last_boot;
-				let final_atts: Vec<&&common::Attempt> = mine.iter().filter(|a| a.boot == final_boot_of_cert).collect();
-				if final_atts.len() >= 3 && final_atts.iter().all(|a| a.ok == Some(false)) {
+				let final_atts: Vec<&&common::Attempt> = mine
+					.iter()
+					.filter(|a| a.boot == final_boot_of_cert && a.ok.is_some()) // an attempt cut by the end of the run is not judged
+					.collect();
+				let after_faults = final_atts.iter().filter(|a| a.begin.seq > last_net_fault).count();
+				if final_atts.len() >= 3 && final_atts.iter().all(|a| a.ok == Some(false)) && (!net_faults || after_faults >= 2) {
 					// why? classify by what the configuration history asked for
-					let pending = pending_changes(w);
+					let mut pending = pending_changes(w);
+					// a roll-over the CA processed, the daemon killed before it recorded it: the CA
+					// holds the new key, the daemon keeps authorising the roll-over with the old one
+					let rollover_lost_in_crash = ca.accounts.iter().flat_map(|ac| ac.key_history.iter()).any(|(tx, _)| {
+						let d = w.trace.iter().find(|e| matches!(&e.ev, Ev::NetDeliver { tx: t, class, fault: None, .. } if t == tx && class == "keyChange"));
+						match d {
+							Some(d) => {
+								let crash = w.trace.iter().find(|e| e.seq > d.seq && matches!(&e.ev, Ev::Stopped { why } if why == "crash"));
+								match crash {
+									Some(c) => !w.trace.iter().any(|e| e.seq > d.seq && e.seq < c.seq && matches!(&e.ev, Ev::FsClose { path, .. } if path.ends_with(".account.bin"))),
+									None => false,
+								}
+							}
+							None => false,
+						}
+					});
+					if rollover_lost_in_crash {
+						pending = "rollover_processed_by_ca_then_crash_before_it_was_recorded".into();
+					}
 					rep.add(Violation::new("C11", "never_converges", &pending, &c.endpoint, format!("{} consecutive failed attempts of {} after the history; last failing request class {}", final_atts.len(), id, common::last_class_in(w, final_atts.last().unwrap()))));
 				}
 			}
@@ -265,7 +493,12 @@ pub fn check(r: &RunResult, rep: &mut Report) {
 }
 
 fn last_boot_before(w: &World, seq: u64) -> u64 {
-	w.trace.iter().filter(|e| e.seq < seq && matches!(&e.ev, Ev::Boot { .. })).map(|e| e.seq).last().unwrap_or(0)
+	w.trace
+		.iter()
+		.filter(|e| e.seq < seq && matches!(&e.ev, Ev::Boot { .. }))
+		.map(|e| e.seq)
+		.last()
+		.unwrap_or(0)
 }
 
 /// which kinds of edits did the history contain (for identifying a non-convergence)
